@@ -1200,3 +1200,43 @@ def r16_scanline_readers_are_memoryless(ck, P, rid='C10-R16'):
                         ck.ok(R, where)
     if n == 0:
         raise AnalysisBroken('%s: no pixel loop found in the scanline readers of accessors[]' % rid)
+
+
+def r17_converted_pixels_get_the_alpha_mask(ck, P, rid='C10-R17'):
+    """sibling agreement inside the templated C fetchers: they are instantiated once per format through a `convert_pixel` callback and a
+    `format` constant, and force the alpha of alpha-less formats by or-ing every converted pixel with `mask` (0xff000000 when the format
+    has no alpha).  Every call through the callback - in the repeat branch and in the no-repeat branch alike - is followed by that or."""
+    R = ck.rule(rid, 'in every fetcher that converts source pixels through a convert_pixel callback parameter, the result of each such call is or-ed with the alpha mask of the format (a value whose slice contains the constant 0xff000000, selected by PIXMAN_FORMAT_A (format)) before it is used: absent alpha reads as 1 on every branch of the fetcher (repeat and no repeat, every tap)', floor=10)
+    n = 0
+    for f in P.functions():
+        cps = [i for i, (pn, pt) in enumerate(f.params) if pn == 'convert_pixel' or (pt.startswith('i32 (i8*, i32)*'))]
+        if not cps:
+            continue
+        for c in f.calls():
+            if c.callee is not None or 'callee' not in c.d or list(c.d['callee']) not in [['a', k] for k in cps]:
+                continue
+            n += 1; ck.saw(f)
+            ok = False
+            for u_ in f.users(c):
+                if u_.op == 'or':
+                    other = [a for a in u_.a if list(a) != ['v', c.i]]
+                    for o in other:
+                        if o[0] == 'c' and int(o[1]) & 0xffffffff == 0xff000000:
+                            ok = True
+                        seen = set(); work = [o]
+                        while work:
+                            q = work.pop()
+                            if q[0] == 'c' and int(q[1]) & 0xffffffff == 0xff000000:
+                                ok = True
+                            y = f.v(q) if q[0] == 'v' else None
+                            if y is None or y.i in seen or y.op in ('load', 'call'):
+                                continue
+                            seen.add(y.i)
+                            work.extend(a for a in y.a if a)
+            where = '%s: converted pixel at %s' % (f.name, c.loc())
+            if ok:
+                ck.ok(R, where, 'or-ed with the alpha mask')
+            else:
+                ck.violation(R, f.name, 'converted pixel at %s' % c.loc(), '%s uses the result of convert_pixel at %s without or-ing it with the alpha mask of the format: for x8r8g8b8 the undefined x byte, for r5g6b5 zero, is taken as the alpha of that sample, while the other branches of the same fetcher (and the general fetcher) deliver such pixels opaque' % (f.name, c.loc()), c.loc())
+    if n == 0:
+        raise AnalysisBroken('%s: no call through a convert_pixel callback parameter found' % rid)
